@@ -82,6 +82,21 @@ def project_ops(reader):
     return out
 
 
+def same_values(a, b):
+    """Exact for integer results; for floating-point results a few units in the last place are allowed:
+    NumPy's vectorised loops (pow, divide) may round differently depending on how many elements / which
+    strides they are given, so 'the same expression on the whole array' and 'on the selected rows' can
+    legitimately differ by an ulp."""
+    if a.shape != b.shape or a.dtype != b.dtype:
+        return False
+    if a.dtype.kind != 'f':
+        return np.array_equal(a, b)
+    eps = np.finfo(a.dtype).eps
+    with np.errstate(all='ignore'):
+        return bool(np.all((a == b) | (np.isnan(a) & np.isnan(b)) |
+                           (np.abs(a - b) <= 4 * eps * np.maximum(np.abs(a), np.abs(b)))))
+
+
 def compare_reader(reader, eager, cbin, battery=None):
     """Index `reader` with the battery; returns None if everything equals eager NumPy, else a
     description of the first difference."""
@@ -92,7 +107,7 @@ def compare_reader(reader, eager, cbin, battery=None):
         e = eager[it]
         if isinstance(it, int):
             e = e[np.newaxis, :]
-        if lazy.shape != e.shape or lazy.dtype != e.dtype or not np.array_equal(lazy, e, equal_nan=True):
+        if not same_values(np.asarray(lazy), np.asarray(e)):
             return dict(item=repr(it), lazy=as_list(lazy), lazy_dtype=str(lazy.dtype),
                         eager=as_list(e), eager_dtype=str(e.dtype))
         if e.shape[1] >= 2 and not cbin:
@@ -100,7 +115,7 @@ def compare_reader(reader, eager, cbin, battery=None):
             if not isinstance(lz, np.ndarray):
                 lz = lz[:]        # reader[:, cols] is a reader again; its contents are compared
             ee = e[:, [1, 0]]
-            if lz.shape != ee.shape or lz.dtype != ee.dtype or not np.array_equal(lz, ee, equal_nan=True):
+            if not same_values(np.asarray(lz), np.asarray(ee)):
                 return dict(item=repr(it) + ', [1, 0]', lazy=as_list(lz), eager=as_list(ee))
     return None
 
@@ -234,7 +249,7 @@ def run(ctx):
         raise MachineryError('vacuity: the aliasing model does not violate Isolation')
     ctx.part(kind='M-negative', module='ReaderOps', cfg='MC_ReaderOps_alias.cfg',
              note='clone sharing the parent list violates Isolation, as expected')
-    names = (['array:int64', 'flat:int16', 'flat:float32', 'cbin:int16'] if ctx.quick else
+    names = (['array:int64', 'flat:int16', 'flat:uint8', 'flat:float32', 'cbin:int16'] if ctx.quick else
              ['array:int64', 'array:int16', 'flat:int16', 'flat:uint8', 'flat:float32',
               'flat:float64', 'npy:int32', 'cbin:int16'])
     with tmp_dir(ctx) as d:
